@@ -44,7 +44,7 @@ theorem invL_init : InvL init := by constructor <;> simp [init, holds]
 @[simp] theorem holds_oi {k} {v} {c} : holds (.oi k v c) = none := rfl
 @[simp] theorem holds_oiEv {k} {v} {c} : holds (.oiEv k v c) = none := rfl
 @[simp] theorem holds_oiAdd {k} {v} {c} : holds (.oiAdd k v c) = none := rfl
-@[simp] theorem holds_clr  : holds (.clr ) = none := rfl
+@[simp] theorem holds_clr {a p} : holds (.clr a p) = none := rfl
 @[simp] theorem holds_mLock {a} {b} {f} : holds (.mLock a b f) = none := rfl
 @[simp] theorem holds_mDrain {m} {l} {a} : holds (.mDrain m l a) = some m.sh := rfl
 @[simp] theorem holds_mAdmit {m} {ws} : holds (.mAdmit m ws) = some m.sh := rfl
@@ -150,7 +150,8 @@ macro_rules | `(tactic| invl_step $hi $h $f) => `(tactic|
 
 theorem invL_step {c : Cfg} {s s' : State} {t : Nat} {l : Label} (hi : InvL s) (h : step c s t l = some s') :
     InvL s' := by
-  cases l <;> simp only [step] at h
+  replace h := step_step0 h
+  cases l <;> simp only [step0] at h
   case call op a => invl_step hi h stepCall
   case advance d => simp at h; subst h; exact ⟨hi.held, hi.owner⟩
   case read => invl_step hi h stepRead
@@ -169,6 +170,8 @@ theorem invL_step {c : Cfg} {s s' : State} {t : Nat} {l : Label} (hi : InvL s) (
   case oiEv => invl_step hi h stepOiEv
   case oiAdd => invl_step hi h stepOiAdd
   case clear => invl_step hi h stepClear
+  case clrAcq i => invl_step hi h stepClrAcq
+  case clrGet i => invl_step hi h stepClrGet
   case mLock => invl_step hi h stepMLock
   case recv => invl_step hi h stepRecv
   case admit d => invl_step hi h stepAdmit
@@ -235,7 +238,8 @@ macro_rules | `(tactic| invm_step $hi $h $f) => `(tactic|
 
 theorem invM_step {c : Cfg} {s s' : State} {t : Nat} {l : Label} (hi : InvM s) (h : step c s t l = some s') :
     InvM s' := by
-  cases l <;> simp only [step] at h
+  replace h := step_step0 h
+  cases l <;> simp only [step0] at h
   case call op a => invm_step hi h stepCall
   case advance d => simp at h; subst h; exact ⟨hi.lt, hi.nodup⟩
   case read => invm_step hi h stepRead
@@ -254,6 +258,8 @@ theorem invM_step {c : Cfg} {s s' : State} {t : Nat} {l : Label} (hi : InvM s) (
   case oiEv => invm_step hi h stepOiEv
   case oiAdd => invm_step hi h stepOiAdd
   case clear => invm_step hi h stepClear
+  case clrAcq i => invm_step hi h stepClrAcq
+  case clrGet i => invm_step hi h stepClrGet
   case mLock => invm_step hi h stepMLock
   case recv => invm_step hi h stepRecv
   case admit d => invm_step hi h stepAdmit
@@ -273,5 +279,189 @@ theorem invM_reach {c : Cfg} {s : State} (h : Reach c s) : InvM s := by
   induction h with
   | init => exact invM_init
   | step _ hs ih => exact invM_step ih hs
+
+
+/-! ### shard locks held by `clear` across its acquisitions -/
+
+/-- the shards whose map write lock the thread holds between steps (only `clear` does) -/
+def holdsShards : PC → List Nat
+  | .clr acq _ => acq
+  | _ => []
+
+structure InvS (s : State) : Prop where
+  held : ∀ t i, i ∈ holdsShards (s.pc t) → s.sheld i = some t
+  owner : ∀ t i, s.sheld i = some t → i ∈ holdsShards (s.pc t)
+
+theorem invS_init : InvS init := by constructor <;> simp [init, holdsShards]
+
+@[simp] theorem hsh_clr {a p} : holdsShards (.clr a p) = a := rfl
+@[simp] theorem hsh_idle  : holdsShards (.idle ) = [] := rfl
+@[simp] theorem hsh_done {r} : holdsShards (.done r) = [] := rfl
+@[simp] theorem hsh_rd {k} {p} : holdsShards (.rd k p) = [] := rfl
+@[simp] theorem hsh_ins {k} {v} {c} {e} {l} : holdsShards (.ins k v c e l) = [] := rfl
+@[simp] theorem hsh_insSub {k} {c} {old} : holdsShards (.insSub k c old) = [] := rfl
+@[simp] theorem hsh_insEv {k} {c} : holdsShards (.insEv k c) = [] := rfl
+@[simp] theorem hsh_insAdd {k} {c} : holdsShards (.insAdd k c) = [] := rfl
+@[simp] theorem hsh_insMaint {k} : holdsShards (.insMaint k) = [] := rfl
+@[simp] theorem hsh_rm {k} : holdsShards (.rm k) = [] := rfl
+@[simp] theorem hsh_rmPol {k} {v} {c} {rid} : holdsShards (.rmPol k v c rid) = [] := rfl
+@[simp] theorem hsh_rmSub {k} {v} {c} {rid} : holdsShards (.rmSub k v c rid) = [] := rfl
+@[simp] theorem hsh_rmNote {k} {v} {rid} : holdsShards (.rmNote k v rid) = [] := rfl
+@[simp] theorem hsh_cmp {k} {d} {l} : holdsShards (.cmp k d l) = [] := rfl
+@[simp] theorem hsh_oi {k} {v} {c} : holdsShards (.oi k v c) = [] := rfl
+@[simp] theorem hsh_oiEv {k} {v} {c} : holdsShards (.oiEv k v c) = [] := rfl
+@[simp] theorem hsh_oiAdd {k} {v} {c} : holdsShards (.oiAdd k v c) = [] := rfl
+@[simp] theorem hsh_mLock {a} {b} {f} : holdsShards (.mLock a b f) = [] := rfl
+@[simp] theorem hsh_mDrain {m} {l} {a} : holdsShards (.mDrain m l a) = [] := rfl
+@[simp] theorem hsh_mAdmit {m} {ws} : holdsShards (.mAdmit m ws) = [] := rfl
+@[simp] theorem hsh_mVictim {m} {ws} {vs} {tot} {ns} : holdsShards (.mVictim m ws vs tot ns) = [] := rfl
+@[simp] theorem hsh_mSub {m} {ws} {tot} {ns} : holdsShards (.mSub m ws tot ns) = [] := rfl
+@[simp] theorem hsh_mNote {m} {ws} {ns} : holdsShards (.mNote m ws ns) = [] := rfl
+@[simp] theorem hsh_mTtl {m} : holdsShards (.mTtl m) = [] := rfl
+@[simp] theorem hsh_mTtlMap {m} {e} : holdsShards (.mTtlMap m e) = [] := rfl
+@[simp] theorem hsh_mTti {m} : holdsShards (.mTti m) = [] := rfl
+@[simp] theorem hsh_mCapLoad {m} : holdsShards (.mCapLoad m) = [] := rfl
+@[simp] theorem hsh_mCapEvict {m} {n} : holdsShards (.mCapEvict m n) = [] := rfl
+@[simp] theorem hsh_mCapMap {m} {v} {r} : holdsShards (.mCapMap m v r) = [] := rfl
+@[simp] theorem hsh_mCapSub {m} {r} : holdsShards (.mCapSub m r) = [] := rfl
+@[simp] theorem hsh_mUnlock {m} : holdsShards (.mUnlock m) = [] := rfl
+@[simp] theorem hsh_afterWrites (m : MCtx) : holdsShards (afterWrites m) = [] := by unfold afterWrites; split <;> rfl
+@[simp] theorem hsh_nextAdmit (m : MCtx) (ws) : holdsShards (nextAdmit m ws) = [] := by
+  unfold nextAdmit; split <;> first | exact hsh_afterWrites _ | rfl
+@[simp] theorem hsh_startDrain (m : MCtx) (l) : holdsShards (startDrain m l) = [] := by
+  unfold startDrain; split <;> first | exact hsh_nextAdmit _ _ | rfl
+@[simp] theorem hsh_afterSub (m : MCtx) (ws ns) : holdsShards (afterSub m ws ns) = [] := by
+  unfold afterSub; split <;> first | exact hsh_nextAdmit _ _ | rfl
+@[simp] theorem hsh_afterVictim (m : MCtx) (ws vs tot ns) : holdsShards (afterVictim m ws vs tot ns) = [] := by
+  unfold afterVictim; split <;> rfl
+@[simp] theorem hsh_startPC (c : Cfg) (n : Nat) (op : Op) : holdsShards (startPC c n op) = [] := by cases op <;> rfl
+
+theorem invS_frame {s s' : State} (hi : InvS s) (t : Nat) (x : PC) (hpc : s'.pc = upd s.pc t x)
+    (hh : holdsShards x = holdsShards (s.pc t)) (hl : s'.sheld = s.sheld) : InvS s' := by
+  obtain ⟨h1, h2⟩ := hi
+  have key : ∀ u, holdsShards (s'.pc u) = holdsShards (s.pc u) := by
+    intro u; rw [hpc, upd_apply]; split
+    · rename_i e; rw [e, hh]
+    · rfl
+  exact ⟨fun u i h => by rw [hl]; exact h1 u i (by rw [← key]; exact h),
+         fun u i h => by rw [key]; exact h2 u i (by rw [← hl]; exact h)⟩
+
+/-- thread `t` acquires shard `i`, which nobody holds -/
+theorem invS_acquire {s s' : State} (hi : InvS s) (t i : Nat) (x : PC) (hpc : s'.pc = upd s.pc t x)
+    (hh : holdsShards x = holdsShards (s.pc t) ++ [i]) (hf : s.sheld i = none)
+    (hl : s'.sheld = upd s.sheld i (some t)) : InvS s' := by
+  obtain ⟨h1, h2⟩ := hi
+  constructor
+  · intro u j h
+    rw [hpc, upd_apply] at h; rw [hl, upd_apply]
+    split at h
+    · rename_i e; subst e
+      rw [hh, List.mem_append] at h
+      rcases h with h | h
+      · have := h1 u j h
+        split
+        · rename_i e; subst e; simp_all
+        · exact this
+      · simp at h; subst h; simp
+    · have := h1 u j h
+      split
+      · rename_i e; subst e; simp_all
+      · exact this
+  · intro u j h
+    rw [hl, upd_apply] at h; rw [hpc, upd_apply]
+    split at h
+    · rename_i e; subst e; simp at h; subst h; simp [hh]
+    · have := h2 u j h
+      split
+      · rename_i e; subst e; rw [hh]; exact List.mem_append_left _ this
+      · exact this
+
+/-- thread `t` releases every shard it holds -/
+theorem invS_release {s s' : State} (hi : InvS s) (t : Nat) (x : PC) (hpc : s'.pc = upd s.pc t x)
+    (hh : holdsShards x = [])
+    (hl : s'.sheld = fun i => if s.sheld i = some t then none else s.sheld i) : InvS s' := by
+  obtain ⟨h1, h2⟩ := hi
+  constructor
+  · intro u j h
+    rw [hpc, upd_apply] at h; rw [hl]
+    split at h
+    · rw [hh] at h; simp at h
+    · rename_i hne
+      have := h1 u j h
+      simp only [this]
+      split
+      · rename_i e; exact absurd (Option.some.inj e) hne
+      · rfl
+  · intro u j h
+    rw [hl] at h; simp only at h
+    split at h
+    · simp at h
+    · rename_i hne
+      have hu := h2 u j h
+      rw [hpc, upd_apply]
+      split
+      · rename_i e; subst e; exact absurd h hne
+      · exact hu
+
+syntax "invs_step " ident ident ident : tactic
+macro_rules | `(tactic| invs_step $hi $h $f) => `(tactic|
+  (unfold $f at $h:ident
+   repeat' split at $h:ident
+   all_goals (simp at $h:ident; try subst $h:ident)
+   all_goals first
+     | exact $hi
+     | (refine invS_frame $hi _ _ rfl ?_ rfl
+        simp_all
+        done)
+     | (refine invS_acquire $hi _ _ _ rfl ?_ (by assumption) rfl
+        simp_all
+        done)
+     | (refine invS_release $hi _ _ rfl ?_ rfl
+        simp_all
+        done)))
+
+theorem invS_step {c : Cfg} {s s' : State} {t : Nat} {l : Label} (hi : InvS s) (h : step c s t l = some s') :
+    InvS s' := by
+  replace h := step_step0 h
+  cases l <;> simp only [step0] at h
+  case call op a => invs_step hi h stepCall
+  case advance d => simp at h; subst h; exact ⟨hi.held, hi.owner⟩
+  case read => invs_step hi h stepRead
+  case insMap => invs_step hi h stepInsMap
+  case insSub => invs_step hi h stepInsSub
+  case insEv => invs_step hi h stepInsEv
+  case insAdd => invs_step hi h stepInsAdd
+  case coopSkip => invs_step hi h stepCoopSkip
+  case coopLock => invs_step hi h stepCoopLock
+  case rmMap => invs_step hi h stepRmMap
+  case rmPol => invs_step hi h stepRmPol
+  case rmSub => invs_step hi h stepRmSub
+  case rmNote sent => invs_step hi h stepRmNote
+  case compute fail => invs_step hi h stepCompute
+  case oiMap => invs_step hi h stepOiMap
+  case oiEv => invs_step hi h stepOiEv
+  case oiAdd => invs_step hi h stepOiAdd
+  case clrAcq i => invs_step hi h stepClrAcq
+  case clrGet i => invs_step hi h stepClrGet
+  case clear => invs_step hi h stepClear
+  case mLock => invs_step hi h stepMLock
+  case recv => invs_step hi h stepRecv
+  case admit d => invs_step hi h stepAdmit
+  case victim => invs_step hi h stepVictim
+  case evSub => invs_step hi h stepEvSub
+  case evNote sent => invs_step hi h stepEvNote
+  case ttlAdvance e => invs_step hi h stepTtlAdvance
+  case ttlMap sent => invs_step hi h stepTtlMap
+  case ttiMap vs sent => invs_step hi h stepTtiMap
+  case capLoad => invs_step hi h stepCapLoad
+  case capEvict v r => invs_step hi h stepCapEvict
+  case capMap sent => invs_step hi h stepCapMap
+  case capSub => invs_step hi h stepCapSub
+  case unlock => invs_step hi h stepUnlock
+
+theorem invS_reach {c : Cfg} {s : State} (h : Reach c s) : InvS s := by
+  induction h with
+  | init => exact invS_init
+  | step _ hs ih => exact invS_step ih hs
 
 end Fv.Cache.Conc
